@@ -2,7 +2,8 @@
 """Regenerates MANIFEST.json from props.json (single source for the per-property text)."""
 import json, os
 V = os.path.dirname(os.path.abspath(__file__))
-props = json.load(open(os.path.join(V, "props.json")))
+claimed = [l.strip() for l in open(os.path.join(V, "claimed.txt")) if l.strip() and not l.startswith("#")]
+props = {p: json.load(open(os.path.join(V, "props", p + ".json"))) for p in claimed}
 allp = [json.loads(l)["id"] for l in open(os.path.join(V, "properties.jsonl"))]
 na = json.load(open(os.path.join(V, "not_applicable.json"))) if os.path.exists(os.path.join(V, "not_applicable.json")) else {}
 checks = []
